@@ -1205,6 +1205,36 @@ def r97(ctx: Ctx) -> RuleReport:
     if not flags:
         rep.undecided(f'{fi.fq}: the recursive call is guarded by the push flag of the datum', fi.loc(recs[0]), 'no simple flag among the facts of the call')
         return rep
+    # the "node exists already" test looks at the variable of the mapped node and clears the flag
+    import re as _re
+    for nd in cfg.nodes:
+        if nd.kind != 'cond':
+            continue
+        m_ = _re.fullmatch(r'(\w+)\[(-?\d+)\] == (\w+)', norm(nd.ast))
+        if not m_:
+            continue
+        d_ = single_def(ctx, fi, ast.Name(id=m_.group(1), ctx=ast.Load()))
+        nmx = next((x for x in ast.walk(nd.ast) if isinstance(x, ast.Name) and x.id == m_.group(1)), None)
+        d_ = single_def(ctx, fi, nmx) if nmx is not None else None
+        if d_ is None or '.get(' not in norm(d_) and '[' not in norm(d_):
+            continue
+        key = f'{fi.fq}: `{norm(nd.ast)}` recognises a node that exists already by its variable, and then does not open it again'
+        if m_.group(2) != '0':
+            rep.violation(key, fi.loc(nd.ast), f'element {m_.group(2)} of the mapped node (var, branches) is compared with the target: it is never equal to a variable, so the test never '
+                          f'fires and a node can be opened twice (its second occurrence is written as a full node again)')
+            continue
+        clears2 = {n2.id for n2 in cfg.nodes if n2.kind == 'stmt' and isinstance(n2.ast, ast.Assign) and any(isinstance(x, ast.Name) and x.id in flags for x in n2.ast.targets)
+                   and isinstance(n2.ast.value, ast.Constant) and n2.ast.value.value is False}
+        heads2 = {n2.id for n2 in cfg.nodes if n2.kind == 'loophead'}
+        bad_path = None
+        for c in recs:
+            cn2 = owner_node(cfg, pm, c)
+            bad_path = bad_path or cfg.path_avoiding([(nd.id, 'T')], {cn2}, lambda n2: n2.id in clears2 or n2.id in heads2)
+        if bad_path:
+            rep.violation(key, fi.loc(nd.ast), f'although the node exists already, the same datum can still reach the recursive call ({" -> ".join(repr(cfg.nodes[x]) for x in bad_path[-3:])[:140]}): '
+                          f'the node is opened a second time')
+        else:
+            rep.ok(key, fi.loc(nd.ast))
     for t in turns:
         tn = cfg.node_of(t)
         for c in recs:
